@@ -46,12 +46,12 @@ type act struct {
 
 // recorder logs crossings of one mesh.
 type recorder struct {
-	ms     *mesh.Mesh
-	events []any
-	last   map[string][]byte // frame identity -> bytes at previous crossing (or origin)
-	ids    map[string]int
-	known  map[string]bool
-	pingOf map[uint64]int // ping id -> frame id of the request
+	ms        *mesh.Mesh
+	events    []any
+	last      map[string][]byte // frame identity -> bytes at previous crossing (or origin)
+	ids       map[string]int
+	known     map[string]bool
+	pingOf    map[uint64]int // ping id -> frame id of the request
 	seenReply map[string]bool
 }
 
@@ -476,61 +476,159 @@ func run(c *vf.Ctx) {
 			ms.W.RunUntilQuiet(func(k int) int { return rng.Intn(k) }, 200000)
 			rec := newRecorder(ms)
 			pairs := 0
-			for a := 1; a <= n; a++ {
-				for bb := 1; bb <= n; bb++ {
-					if a == bb {
-						continue
+			// liveRoute: a's table answers a lookup for b with a route to exactly b whose labels, followed over the real
+			// links, end at b (the test for "converged" after the topology changed)
+			liveRoute := func(a, bb int) bool {
+				A, B := ms.Node(a), ms.Node(bb)
+				e, isDst := A.RoutingTable().LookupNearest(B.ID.IP)
+				if e == nil || !isDst || e.DstIP != B.ID.IP {
+					return false
+				}
+				if l := A.Peer.GetLink(B.ID.IP); l != nil && e.NextHop == B.ID.IP {
+					return !l.IsClosing()
+				}
+				cur := A
+				for i, h := range e.Path.Hops {
+					if i == len(e.Path.Hops)-1 {
+						break
 					}
-					A, B := ms.Node(a), ms.Node(bb)
-					before := len(rec.events)
-					notify, pingID, err := A.Rt.PingPong.Send(B.ID.IP, false, 0)
-					c.Eval(1)
-					pairs++
-					if err != nil {
-						rec.events = rec.events[:before]
-						hasRoute := false
-						for _, rt := range ms.Table(a) {
-							if rt.Dst == bb {
-								hasRoute = true
+					l := cur.Peer.GetLinkByLabel(h.ForwardLabel)
+					if l == nil || l.IsClosing() {
+						return false
+					}
+					if cur = ms.W.NodeByIP(l.Peer()); cur == nil {
+						return false
+					}
+				}
+				return cur == B && len(e.Path.Hops) >= 2
+			}
+			pingAll := func(kind string, churned bool) {
+				for a := 1; a <= n; a++ {
+					for bb := 1; bb <= n; bb++ {
+						if a == bb {
+							continue
+						}
+						if churned && !(liveRoute(a, bb) && liveRoute(bb, a)) {
+							continue // not converged for this pair after the change: nothing is claimed
+						}
+						A, B := ms.Node(a), ms.Node(bb)
+						before := len(rec.events)
+						notify, pingID, err := A.Rt.PingPong.Send(B.ID.IP, false, 0)
+						c.Eval(1)
+						pairs++
+						if err != nil {
+							rec.events = rec.events[:before]
+							hasRoute := false
+							for _, rt := range ms.Table(a) {
+								if rt.Dst == bb {
+									hasRoute = true
+								}
+							}
+							if hasRoute {
+								// the origin holds a route to B and still refuses to send its own request: the request is never handed to B
+								c.Violation(vf.Key("request-not-sent", kind), fmt.Sprintf("converged %s of %d: router %d has a route to %d, but its request was refused: %v", kind, n, a, bb, err),
+									map[string]any{"family": kind, "n": n, "edges": raw, "from": a, "to": bb, "err": err.Error()}, nil)
+							} else {
+								// no route: the mesh is not converged for this pair (C09's business) - skip
+								c.Extra("pingpong_send_error", fmt.Sprintf("%s %d->%d: %v", kind, a, bb, err))
+							}
+							continue
+						}
+						// the request is the first crossing recorded after `before`; register it as driver-originated
+						reqID := 0
+						for _, e := range rec.events[before:] {
+							if mm, ok := e.(map[string]any); ok && mm["ev"] == "cross" {
+								reqID = mm["id"].(int)
+								break
 							}
 						}
-						if hasRoute {
-							// the origin holds a route to B and still refuses to send its own request: the request is never handed to B
-							c.Violation(vf.Key("request-not-sent", f.name), fmt.Sprintf("converged %s of %d: router %d has a route to %d, but its request was refused: %v", f.name, n, a, bb, err),
-								map[string]any{"family": f.name, "n": n, "edges": raw, "from": a, "to": bb, "err": err.Error()}, nil)
-						} else {
-							// no route: the mesh is not converged for this pair (C09's business) - skip
-							c.Extra("pingpong_send_error", fmt.Sprintf("%s %d->%d: %v", f.name, a, bb, err))
+						if reqID == 0 {
+							continue
 						}
-						continue
-					}
-					// the request is the first crossing recorded after `before`; register it as driver-originated
-					reqID := 0
-					for _, e := range rec.events[before:] {
-						if mm, ok := e.(map[string]any); ok && mm["ev"] == "cross" {
-							reqID = mm["id"].(int)
-							break
+						// insert the originate event before the first crossing (TTL 32 at the origin)
+						tail := append([]any(nil), rec.events[before:]...)
+						rec.events = append(rec.events[:before], map[string]any{"ev": "originate", "id": reqID, "src": a, "dst": bb, "ttl": 32, "conv": true})
+						rec.events = append(rec.events, tail...)
+						rec.pingOf[pingID] = reqID
+						drain(ms, 2000)
+						replied := false
+						select {
+						case <-notify:
+							replied = true
+						default:
 						}
+						rec.events = append(rec.events, map[string]any{"ev": "end", "id": reqID, "replied": replied})
+						c.Distinct(fmt.Sprintf("%s|%d|%d|%d", kind, n, a, bb))
 					}
-					if reqID == 0 {
-						continue
-					}
-					// insert the originate event before the first crossing (TTL 32 at the origin)
-					tail := append([]any(nil), rec.events[before:]...)
-					rec.events = append(rec.events[:before], map[string]any{"ev": "originate", "id": reqID, "src": a, "dst": bb, "ttl": 32, "conv": true})
-					rec.events = append(rec.events, tail...)
-					rec.pingOf[pingID] = reqID
-					drain(ms, 2000)
-					replied := false
-					select {
-					case <-notify:
-						replied = true
-					default:
-					}
-					rec.events = append(rec.events, map[string]any{"ev": "end", "id": reqID, "replied": replied})
-					c.Distinct(fmt.Sprintf("%s|%d|%d|%d", f.name, n, a, bb))
 				}
 			}
+			pingAll(f.name, false)
+			// ---- the topology changes while the routers keep running (what they learnt, cached or remembered while
+			// the first requests were routed is still there): a link comes up, another goes down, everybody announces
+			// again; the pairs whose tables have converged on the new topology are asked again
+			churnPairs := 0
+			for round := 0; round < c.Pick(2, 4); round++ {
+				has := map[[2]int]bool{}
+				for _, e := range ms.Edges {
+					has[[2]int{min(e.A, e.B), max(e.A, e.B)}] = true
+				}
+				// up: two routers at distance two get a direct link; down: one of the two links of the old path
+				var cands [][3]int
+				for _, e1 := range ms.Edges {
+					for _, e2 := range ms.Edges {
+						for _, pr := range [][4]int{{e1.A, e1.B, e2.A, e2.B}, {e1.A, e1.B, e2.B, e2.A}, {e1.B, e1.A, e2.A, e2.B}, {e1.B, e1.A, e2.B, e2.A}} {
+							// pr: x=pr[1]=pr[2] is the middle
+							if pr[1] == pr[2] && pr[0] != pr[3] && !has[[2]int{min(pr[0], pr[3]), max(pr[0], pr[3])}] {
+								cands = append(cands, [3]int{pr[0], pr[1], pr[3]})
+							}
+						}
+					}
+				}
+				if len(cands) == 0 {
+					break
+				}
+				cd := cands[rng.Intn(len(cands))]
+				a, x, b := cd[0], cd[1], cd[2]
+				bt.add(rec, map[string]any{"kind": "converged-" + f.name, "n": n, "edges": raw, "before_churn_round": round})
+				ms.W.OnSend = nil
+				la, lb := m.SwitchLabel(20001+rng.Intn(20000)), m.SwitchLabel(20001+rng.Intn(20000))
+				for ms.Node(a).Peer.GetLinkByLabel(la) != nil {
+					la++
+				}
+				for ms.Node(b).Peer.GetLinkByLabel(lb) != nil {
+					lb++
+				}
+				if _, _, err := ms.W.Connect(ms.Node(a), ms.Node(b), la, lb, 5); err != nil {
+					c.Fatal("churn: connect %d-%d: %v", a, b, err)
+				}
+				if l := ms.Node(x).LinkTo(ms.Node(b)); l != nil {
+					l.Close(nil)
+				}
+				if l := ms.Node(b).LinkTo(ms.Node(x)); l != nil {
+					l.Close(nil)
+				}
+				var ne []mesh.Edge
+				for _, e := range ms.Edges {
+					if !(min(e.A, e.B) == min(x, b) && max(e.A, e.B) == max(x, b)) {
+						ne = append(ne, e)
+					}
+				}
+				ms.Edges = append(ne, mesh.Edge{A: a, B: b, LA: la, LB: lb})
+				drain(ms, 200000)
+				for rep := 0; rep < 2; rep++ {
+					time.Sleep(2 * time.Millisecond)
+					for i := 1; i <= n; i++ {
+						ms.Announce(i, true)
+					}
+					ms.W.OnSend = nil
+					ms.W.RunUntilQuiet(func(k int) int { return rng.Intn(k) }, 400000)
+				}
+				rec = newRecorder(ms)
+				before := pairs
+				pingAll(f.name+"-after-churn", true)
+				churnPairs += pairs - before
+			}
+			c.Extra(fmt.Sprintf("churn_pairs_%s_%d", f.name, n), churnPairs)
 			if len(ms.W.Panics) > 0 {
 				c.Violation(vf.Key("panic", f.name), fmt.Sprintf("worker panic in converged %s of %d: %v", f.name, n, ms.W.Panics[0]), nil, nil)
 			}
